@@ -108,6 +108,43 @@ def run(cx):
                   '(call Matrix::new (field x (field vector (field translation (param t)))) (field y (field vector (field translation (param t)))) (field z (field vector (field translation (param t)))) '
                   '(field 0 (call Unit::euler_angles (field rotation (param t)))) (field 1 (call Unit::euler_angles (field rotation (param t)))) (field 2 (call Unit::euler_angles (field rotation (param t)))))',
                   'params = (translation, roll/pitch/yaw in order)', where=b.file)
+    jacobian_rules(cx)
+    # ---------------------------------------------------------------- ParamHandler
+    PH = 'geom3::align3::multi_param::ParamHandler'
+    b = cx.fn(f'{PH}::set_param')
+    if b:
+        cp = b.calls('*Matrix::copy_from')
+        cs = b.calls(f'{PH}::compute')
+        ok = len(cp) == 1 and len(cs) == 1 and b.dominates(cp[0].bb, cs[0].bb) and match('(param x)', cx.arg(cp[0], 1)) is not None and all(b.dominates(cs[0].bb, e) for e in b.exits())
+        cx.ob('ORDER', 'ParamHandler::set_param', ok, 'set_param copies the raw vector and then recomputes every body', where=b.file)
+    b = cx.fn(f'{PH}::compute')
+    if b:
+        sets = b.calls('geom3::align3::RcParams3::set')
+        ok = len(sets) == 1
+        if ok:
+            s = sets[0]
+            tgt = cx.arg(s, 0)
+            val = cx.arg(s, 1)
+            e = match('(index (anyphi (field params _)) $i)', tgt)
+            ok = e is not None and match('(itervar (range 0 (self count)))', e['i']) is not None and \
+                cx.guarded(b, s.bb, '(eq $i (self static_i))', False, e) is not None and \
+                find('(call Matrix::fixed_rows (field raw_params _) (mul (call *ParamHandler::p_index _ $i) 6))', val, e) is not None
+        cx.ob('EXPR', 'ParamHandler::compute', ok, 'every non-static body i is set from rows p_index(i)*6 .. +6 of the raw vector', where=b.file)
+    b = cx.fn(f'{PH}::p_index')
+    if b:
+        rets = cx.alts(b, {'k': 'copy', 'pl': {'l': 0, 'p': []}}, b.exits()[0], len(b.blocks[b.exits()[0]]['stmts']) + 1)
+        ok = len(rets) == 2
+        for (bb, dv, g) in rets:
+            gt = any(p and match('(lt (self static_i) (param cloud_i))', a) is not None for a, p in g)
+            le = any((not p) and match('(lt (self static_i) (param cloud_i))', a) is not None for a, p in g)
+            ok = ok and ((gt and match('(sub (param cloud_i) 1)', dv) is not None) or (le and match('(param cloud_i)', dv) is not None))
+        cx.ob('EXPR', 'ParamHandler::p_index', ok, 'parameter slot = body index, minus one past the static body', where=b.file)
+
+    euler_rules(cx)
+
+
+def jacobian_rules(cx):
+    """Jacobian wiring (shared with C07: the LM problems take their rows from these helpers)"""
     # ---------------------------------------------------------------- Jacobian wiring
     J3 = 'geom3::align3::jacobian'
     b = cx.fn('geom2::align2::jacobian::point_surface_jacobian')
@@ -161,37 +198,10 @@ def run(cx):
                 rows[fld] = match(f'(call Matrix::dot {Nn} (field coords (call Matrix::mul (field {ax} (field rd (call *RcParams3::rotations (param params)))) {FR})))', val) is not None
         cx.ob('EXPR', 'point_point_jacobian:rows', rows == {k: True for k in 'xyzwab'},
               'point-to-point row: n = normalize(p - c); translation part n; rotation part n . (rd.x, rd.y, rd.z applied to p - current_rc) in order', where=b.file, found=str(rows))
-    # ---------------------------------------------------------------- ParamHandler
-    PH = 'geom3::align3::multi_param::ParamHandler'
-    b = cx.fn(f'{PH}::set_param')
-    if b:
-        cp = b.calls('*Matrix::copy_from')
-        cs = b.calls(f'{PH}::compute')
-        ok = len(cp) == 1 and len(cs) == 1 and b.dominates(cp[0].bb, cs[0].bb) and match('(param x)', cx.arg(cp[0], 1)) is not None and all(b.dominates(cs[0].bb, e) for e in b.exits())
-        cx.ob('ORDER', 'ParamHandler::set_param', ok, 'set_param copies the raw vector and then recomputes every body', where=b.file)
-    b = cx.fn(f'{PH}::compute')
-    if b:
-        sets = b.calls('geom3::align3::RcParams3::set')
-        ok = len(sets) == 1
-        if ok:
-            s = sets[0]
-            tgt = cx.arg(s, 0)
-            val = cx.arg(s, 1)
-            e = match('(index (anyphi (field params _)) $i)', tgt)
-            ok = e is not None and match('(itervar (range 0 (self count)))', e['i']) is not None and \
-                cx.guarded(b, s.bb, '(eq $i (self static_i))', False, e) is not None and \
-                find('(call Matrix::fixed_rows (field raw_params _) (mul (call *ParamHandler::p_index _ $i) 6))', val, e) is not None
-        cx.ob('EXPR', 'ParamHandler::compute', ok, 'every non-static body i is set from rows p_index(i)*6 .. +6 of the raw vector', where=b.file)
-    b = cx.fn(f'{PH}::p_index')
-    if b:
-        rets = cx.alts(b, {'k': 'copy', 'pl': {'l': 0, 'p': []}}, b.exits()[0], len(b.blocks[b.exits()[0]]['stmts']) + 1)
-        ok = len(rets) == 2
-        for (bb, dv, g) in rets:
-            gt = any(p and match('(lt (self static_i) (param cloud_i))', a) is not None for a, p in g)
-            le = any((not p) and match('(lt (self static_i) (param cloud_i))', a) is not None for a, p in g)
-            ok = ok and ((gt and match('(sub (param cloud_i) 1)', dv) is not None) or (le and match('(param cloud_i)', dv) is not None))
-        cx.ob('EXPR', 'ParamHandler::p_index', ok, 'parameter slot = body index, minus one past the static body', where=b.file)
 
+
+def euler_rules(cx):
+    """Euler extraction (shared with C07: the starting guess of points_to_mesh goes through from_initial -> to_wpr)"""
     # ---------------------------------------------------------------- Euler extraction at gimbal lock
     b = cx.fn('geom3::align3::rotations::to_wpr')
     if b:
